@@ -353,11 +353,15 @@ def _swarm_table(p, led, sw, sup):
         if True:
             total = (regen + 1) * steps
             small = regen <= 3 and steps <= 3
-            behaviours = [("never", None), ("same", None)] + ([("done", k) for k in range(total)] + [("raise", k) for k in range(0, total, max(1, steps))] if small else [("done", total - 1)])
-            for beh, k in behaviours:
-                def go(o, _regen=regen, _steps=steps, _beh=beh, _k=k):
+            behaviours = [("never", None, 0), ("same", None, 0)] + ([("done", k, 0) for k in range(total)] + [("raise", k, 0) for k in range(0, total, max(1, steps))] if small else [("done", total - 1, 0)])
+            if steps >= 1:
+                # the same swarm object has already supervised `prior` tasks successfully (or unsuccessfully) before this one
+                behaviours += [("never", None, 1), ("never", None, 2), ("never", None, -1)]
+            for beh, k, prior in behaviours:
+                def go(o, _regen=regen, _steps=steps, _beh=beh, _k=k, _prior=prior):
                     it = Interp(p, o)
                     spawned, per_worker, outs = [], {}, []
+                    HIST = {"mode": None}
 
                     def md5(interp, args, kwargs):
                         data = args[0] if args else b""
@@ -381,7 +385,12 @@ def _swarm_table(p, led, sw, sup):
                             if _beh == "raise" and g == _k:
                                 outs.append(None)
                                 raise PyRaise(ExcVal("RuntimeError", ("worker crashed",)))
-                            text = "stuck" if _beh == "same" else (f"all DONE at {g}" if (_beh == "done" and g == _k) else f"progress {g}")
+                            if HIST.get("mode") == "done-now":
+                                text = f"all DONE at once {g}"
+                            elif HIST.get("mode") == "never":
+                                text = f"progress {g}"
+                            else:
+                                text = "stuck" if _beh == "same" else (f"all DONE at {g}" if (_beh == "done" and g == _k) else f"progress {g}")
                             outs.append(text)
                             return text
                         mem = interp.instantiate(wm, [], {}) if wm is not None else Unknown("memory")
@@ -391,6 +400,18 @@ def _swarm_table(p, led, sw, sup):
                     def summarizer(interp, args, kwargs):
                         return ["hint"]
                     swarm = it.instantiate(sw, [], dict(worker_factory=factory, summarizer=summarizer, max_steps_per_worker=_steps, max_regenerations=_regen, silent=True))
+                    if _prior:
+                        for _ in range(abs(_prior)):
+                            # an earlier task on the same object: its first worker finishes at once (prior > 0) / nobody finishes (prior < 0)
+                            HIST["mode"] = "done-now" if _prior > 0 else "never"
+                            try:
+                                it.call_fi(sup, [swarm, "an earlier task"], {})
+                            except PyRaise:
+                                pass
+                        HIST["mode"] = None
+                        del spawned[:]
+                        per_worker.clear()
+                        del outs[:]
                     try:
                         r = it.call_fi(sup, [swarm, "the task"], {})
                     except PyRaise as e:
@@ -406,7 +427,7 @@ def _swarm_table(p, led, sw, sup):
                     raise AnchorError(f"RegenerativeSwarm.supervise could not be interpreted: {e}")
                 for r in paths:
                     nruns += 1
-                    tag = f"max_regenerations={regen}, max_steps_per_worker={steps}, worker {beh}{'' if k is None else '@' + str(k)}"
+                    tag = f"max_regenerations={regen}, max_steps_per_worker={steps}, worker {beh}{'' if k is None else '@' + str(k)}" + (f", after {abs(prior)} earlier {'successful' if prior > 0 else 'exhausted'} task(s) on the same swarm" if prior else "")
                     if r["spawned"] > regen + 1:
                         probs["spawn"].append(f"{tag}: {r['spawned']} workers spawned")
                     over = {w: n for w, n in r["per"].items() if n > steps}
